@@ -229,9 +229,55 @@ def run(prop, tier, only_units=None):
         if mine:
             mine[0].checks = verified + errors
         res.trusted += scan_trusted(name, unit_text, info)
+        if tier == "thorough" and not failed_by and not tool_by:
+            run_canaries(name, unit_rs, info, prop, res)
     res.checker_cmd = " ; ".join(cmds)
     res.wall_s = time.time() - t0
     return res
+
+
+def run_canaries(name, unit_rs, info, prop, res):
+    """Seeded mutations of the extracted text: each must fail its obligation."""
+    path = os.path.join(VERIF, "contracts", "canaries.json")
+    if not os.path.exists(path):
+        return
+    cans = json.load(open(path)).get(name, [])
+    text = open(unit_rs).read()
+    plain = re.sub(r"/\*@[re]\d+\*/", "", text)
+    killed, total = 0, 0
+    for i, c in enumerate(cans):
+        if not c.get("fails"):
+            continue
+        total += 1
+        use = text if text.count(c["find"]) == 1 else plain
+        if use.count(c["find"]) != 1:
+            res.undecided.append(f"verus/{name}: canary {i} ({c['what']}): anchor not found exactly once "
+                                 f"in the extracted text")
+            continue
+        mutated = use.replace(c["find"], c["replace"])
+        mpath = unit_rs[:-3] + f"_canary{i}.rs"
+        open(mpath, "w").write(mutated)
+        try:
+            rc, out, err, wall, cmd = verus_run(mpath, mpath + ".log")
+        except Exception as ex:
+            res.undecided.append(f"verus/{name}: canary {i}: verus did not finish: {ex}")
+            continue
+        items = []   # line numbers shift-free: the region markers were comments on the same lines
+        fns = [f for f in list_fns(mutated, info["items"])]
+        bad = set()
+        for msg, lines, block in parse_errors(err):
+            for ln in lines:
+                for f in fns:
+                    if f["first"] <= ln <= f["last"]:
+                        bad.add(f["name"])
+        if any(b.endswith(c["fails"]) for b in bad):
+            killed += 1
+        else:
+            res.undecided.append(f"verus/{name}: canary {i} ({c['what']}) still verifies: the contract of "
+                                 f"{c['fails']} is too weak")
+        os.remove(mpath)
+    res.extra.setdefault("canaries", {})[name] = {"seeded": total, "killed": killed}
+    res.notes.append(f"verus/{name}: {killed}/{total} seeded-mutation canaries fail their obligation")
 
 
 def scan_trusted(name, text, info):
